@@ -13,7 +13,7 @@ META = {
                   'decoder.Decoder.process_template_data / encoder.Encoder.process_template_data (interpreted and compiled) with everything below'],
     'bounds': ['programs: every family of vlib/families.py (value, bitmap, attribute, compressed families) plus operator-in-force-at-a-marker '
                'templates (harness/c08.py EXTRA), each decoded (fresh / cached / re-loaded compiled template) and encoded; a seeded sample of '
-               '12 (quick) / 120 (thorough) Table D sequences of master table 33 with structure bits symbolic',
+               '8 (quick) / 120 (thorough) Table D sequences of master table 33 with structure bits symbolic',
                'data: every payload bit a solver variable (values may be 0 / max / missing), delayed factors 0..2 (3 thorough), bitmap bits free, '
                '1 subset (2 for a subset of families), compressed with difference width <= 1',
                'same error: streams cut at a solver-chosen bit position (decode) and one value replaced by an arbitrary integer (encode)',
@@ -72,26 +72,30 @@ def jobs(tier, seed):
     names = [f['name'] for f in families.VALUE_FAMILIES + families.BITMAP_FAMILIES + families.ATTRIBUTE_FAMILIES] + sorted(EXTRA)
     modes = ['fresh', 'cached', 'reloaded']
     for k, name in enumerate(names):
+        # quick: each family is decoded in one mode (rotating; operator-at-marker templates always also re-loaded) and every
+        # third family is encoded; thorough: all modes, all families
         for mode in (modes if thorough else [modes[k % 3]] + (['reloaded'] if name in EXTRA and modes[k % 3] != 'reloaded' else [])):
             J.append(Job('dec:%s:%s' % (mode, name), 'harness.c08', 'h_decode_equiv', {'family': name, 'mode': mode, 'max_factor': mf},
                          timeout=3000 if thorough else 600, witnesses=['ok']))
-        J.append(Job('enc:%s:%s' % (modes[(k + 1) % 3], name), 'harness.c08', 'h_encode_equiv',
-                     {'family': name, 'mode': modes[(k + 1) % 3], 'max_factor': mf}, timeout=3000 if thorough else 600, witnesses=['ok']))
-    for f in families.COMPRESSED_FAMILIES:
-        J.append(Job('dec:c2:' + f['name'], 'harness.c08', 'h_decode_equiv',
-                     {'family': f['name'], 'compressed': True, 'n_subsets': 2, 'max_factor': 1, 'mode': 'reloaded'}, timeout=900, witnesses=['ok']))
+        if thorough or k % 3 == 0 or name in EXTRA:
+            J.append(Job('enc:%s:%s' % (modes[(k + 1) % 3], name), 'harness.c08', 'h_encode_equiv',
+                         {'family': name, 'mode': modes[(k + 1) % 3], 'max_factor': mf}, timeout=3000 if thorough else 600, witnesses=['ok']))
+    for k, f in enumerate(families.COMPRESSED_FAMILIES):
+        if thorough or k % 2 == 0 or f['name'] in ('c-204', 'c-206'):
+            J.append(Job('dec:c2:' + f['name'], 'harness.c08', 'h_decode_equiv',
+                         {'family': f['name'], 'compressed': True, 'n_subsets': 2, 'max_factor': 1, 'mode': 'reloaded'}, timeout=900, witnesses=['ok']))
         if thorough or f['name'] in ('c-num', 'c-rep', 'c-203', 'c-224', 'c-str208'):
             J.append(Job('enc:c2:' + f['name'], 'harness.c08', 'h_encode_equiv',
                          {'family': f['name'], 'compressed': True, 'n_subsets': 2, 'max_factor': 1, 'mode': 'fresh'}, timeout=900, witnesses=['ok']))
-    for name in (('delayed', 'qa222', 'op203', 'reuse-237') if not thorough else names[:24]):
+    for name in (('delayed', 'qa222', 'reuse-237') if not thorough else names[:24]):
         J.append(Job('dec:u2:' + name, 'harness.c08', 'h_decode_equiv', {'family': name, 'n_subsets': 2, 'max_factor': 1, 'mode': 'cached',
-                                                                        'nbits': 2048}, timeout=1200, witnesses=['ok'], core=not thorough))
-    for name in ('plain', 'delayed-short', 'op204', 'sub223') + (('strings', 'op203', 'stat224', 'op207') if thorough else ()):
+                                                                        'nbits': 2048, 'no_missing': True}, timeout=1200, witnesses=['ok'], core=not thorough))
+    for name in ('plain', 'op204', 'sub223') + (('delayed-short', 'strings', 'op203', 'stat224', 'op207') if thorough else ()):
         J.append(Job('dec:truncated:' + name, 'harness.c08', 'h_decode_equiv', {'family': name, 'truncate': True, 'max_factor': 1, 'mode': 'fresh',
                                                                                 'no_missing': True}, timeout=1200, witnesses=['ok', 'both-fail']))
         J.append(Job('enc:perturbed:' + name, 'harness.c08', 'h_encode_equiv', {'family': name, 'perturb': True, 'max_factor': 1, 'mode': 'reloaded',
                                                                                 'no_missing': True}, timeout=1200, witnesses=['ok', 'both-fail']))
-    for sid in _tabled_sample(120 if thorough else 12, seed):
+    for sid in _tabled_sample(120 if thorough else 8, seed):
         J.append(Job('dec:tableD:%06d' % sid, 'harness.c08', 'h_decode_equiv', {'ids': [sid], 'mode': 'reloaded', 'max_factor': 1, 'no_missing': True,
                                                                                 'nbits': 4096}, timeout=900, witnesses=['ok'], core=False))
     for c in (0, 1, 2, 3):
